@@ -242,6 +242,8 @@ pub struct Plan {
     pub cases_per_worker: u32,
     /// watchdog for one worker
     pub timeout_s: u64,
+    /// proptest shrink iterations (expensive checks use a small number)
+    pub max_shrink_iters: u32,
 }
 
 pub trait Prop: 'static {
@@ -383,6 +385,9 @@ pub fn worker<P: Prop>(a: WorkerArgs) -> i32 {
     let mut ev = Evidence::default();
     let mut report = WorkerReport::default();
     let crumbs = std::env::var("FV_NO_CRUMBS").is_err();
+    // FV_STRICT=1: known findings are not tolerated (used to harvest replay
+    // files for them)
+    let strict_env = std::env::var("FV_STRICT").is_ok();
 
     // Deterministic cases first
     if a.index == 0 {
@@ -396,7 +401,7 @@ pub fn worker<P: Prop>(a: WorkerArgs) -> i32 {
                 ev: &mut ev,
                 known: &known,
                 tier: a.tier,
-                strict: false,
+                strict: strict_env,
             };
             if let Err(f) = run_check::<P>(&case, &mut cx) {
                 let v = serde_json::to_value(&case).unwrap();
@@ -415,7 +420,7 @@ pub fn worker<P: Prop>(a: WorkerArgs) -> i32 {
         cases: a.cases,
         failure_persistence: None,
         rng_seed: RngSeed::Fixed(seed),
-        max_shrink_iters: 3000,
+        max_shrink_iters: P::plan(a.tier).max_shrink_iters,
         max_global_rejects: 100_000,
         ..Config::default()
     };
@@ -442,7 +447,7 @@ pub fn worker<P: Prop>(a: WorkerArgs) -> i32 {
                 ev: &mut evb,
                 known: &known,
                 tier: a.tier,
-                strict: false,
+                strict: strict_env,
             };
             match run_check::<P>(&case, &mut cx) {
                 Ok(()) => Ok(()),
@@ -468,7 +473,7 @@ pub fn worker<P: Prop>(a: WorkerArgs) -> i32 {
                 ev: &mut scratch,
                 known: &known,
                 tier: a.tier,
-                strict: false,
+                strict: strict_env,
             };
             let mut case = case;
             let mut f = match run_check::<P>(&case, &mut cx) {
